@@ -75,7 +75,191 @@ def make_stanza(variant, kind, ident, size):
     return OutgoingReceiptProtocolEntity(ident, "4911111@s.whatsapp.net")
 
 
+class _FakeSocket(object):
+    """a socket that takes what its send buffer has room for: each send() accepts at most the next capacity of the case's list
+    (0 = would block); sendall() - like the real one - comes back only when everything is taken"""
+
+    def __init__(self, caps):
+        self.caps = list(caps) or [1 << 30]
+        self.i = 0
+        self.wire = bytearray()
+
+    def _cap(self):
+        c = self.caps[self.i % len(self.caps)]
+        self.i += 1
+        return c
+
+    def send(self, data):
+        n = min(len(data), self._cap())
+        self.wire += bytes(data[:n])
+        return n
+
+    def sendall(self, data):
+        data = bytes(data)
+        while data:
+            n = self.send(data)
+            data = data[n:]
+
+    def close(self):
+        pass
+
+    def shutdown(self, how):
+        pass
+
+    def fileno(self):
+        return -1
+
+
+from yowsup.layers.network.dispatcher.dispatcher import ConnectionCallbacks as _ConnectionCallbacks
+
+
+class _Callbacks(_ConnectionCallbacks):
+    def __init__(self):
+        self.events = []
+
+    def onConnected(self):
+        self.events.append("connected")
+
+    def onDisconnected(self):
+        self.events.append("disconnected")
+
+    def onConnecting(self):
+        pass
+
+    def onConnectionError(self, e):
+        self.events.append("error")
+
+    def onRecvData(self, data):
+        pass
+
+
+def _dispatcher_writes(case, out):
+    """the two dispatcher classes of the network layer over a socket double: whatever the socket accepts per call (short writes,
+    would-block), the bytes that reach it are exactly the frames handed to sendData, complete and in order.  One thread; the
+    event loop's write rounds of the asynchronous dispatcher are operations of the script."""
+    from yowsup.layers.network.dispatcher.dispatcher_socket import SocketConnectionDispatcher
+    from yowsup.layers.network.dispatcher.dispatcher_asyncore import AsyncoreConnectionDispatcher
+    which = case["dispatcher"]
+    cb = _Callbacks()
+    sock = _FakeSocket(case["caps"])
+    if which == "socket":
+        # (a blocking socket waits for room instead of reporting "would block")
+        sock.caps = [c or 1 for c in sock.caps]
+        d = SocketConnectionDispatcher(cb)
+        d.socket = sock
+    else:
+        d = AsyncoreConnectionDispatcher(cb)
+        d.socket = sock
+        d.connected = True
+        d._connected = True
+    out.label("dispatcher=" + which)
+    expected = bytearray()
+    short = False
+    for k, op in enumerate(case["ops"]):
+        if op[0] == "send":
+            frame = bytes([k & 0xFF]) * 3 + bytes(((k * 7 + i) & 0xFF) for i in range(op[1]))
+            before = len(sock.wire)
+            try:
+                d.sendData(frame)
+            except Exception as e:
+                out.fail("dispatcher", "dispatcher:%s:sendData_raises:%s" % (which, type(e).__name__), {"error": repr(e)[:200]})
+                return out
+            expected += frame
+            if len(sock.wire) - before < len(frame):
+                short = True
+        elif op[0] == "loop" and which == "asyncore":
+            # the event loop finds the socket writable while output is pending
+            if d.writable() and d.out_buffer:
+                d.handle_write()
+    if which == "asyncore":
+        sock.caps = [1 << 30]
+        for _ in range(64):
+            if not d.out_buffer:
+                break
+            d.handle_write()
+    out.label("short_write" if short else "whole_writes")
+    out.info = {"nt": short}
+    if bytes(sock.wire) != bytes(expected):
+        n = 0
+        while n < min(len(sock.wire), len(expected)) and sock.wire[n] == expected[n]:
+            n += 1
+        what = "truncated" if len(sock.wire) < len(expected) and bytes(expected[:len(sock.wire)]) == bytes(sock.wire) else \
+            "duplicated_or_reordered" if len(sock.wire) >= len(expected) else "bytes_missing_inside"
+        out.fail("dispatcher", "dispatcher:%s:bytes_on_the_socket_%s" % (which, what),
+                 {"handed_over": len(expected), "on_the_socket": len(sock.wire), "first_difference_at": n, "caps": case["caps"][:8]})
+    return out
+
+
+def _dispatcher_race(case, out):
+    """the asynchronous dispatcher between two threads, as in a running client: the sender (one at a time - the layers above
+    serialise them) inside sendData, and the event loop's thread writing pending output whenever the socket is writable.
+    Deterministic scheduler, preemption at every line of the dispatcher and of asyncore's send path."""
+    import yowsup.layers.network.dispatcher.dispatcher_asyncore as DA
+    from yowsup.layers.network.dispatcher.dispatcher_asyncore import AsyncoreConnectionDispatcher
+    if hasattr(DA, "threading"):
+        DA.threading = S.ThreadingShim()      # whatever locks the dispatcher uses become scheduler-aware
+    sk = S.Scheduler(case.get("choices", []), ("asyncore/__init__.py", "dispatcher_asyncore.py"), trace_lines=True,
+                     preempt=case.get("preempt"), max_steps=200000)
+    S.SCHED = sk
+    try:
+        cb = _Callbacks()
+        sock = _FakeSocket(case["caps"])
+        d = AsyncoreConnectionDispatcher(cb)
+        d.socket = sock
+        d.connected = True
+        d._connected = True
+        frames = [bytes([k & 0xFF]) * 3 + bytes(((k * 7 + i) & 0xFF) for i in range(n)) for k, n in enumerate(case["sizes"])]
+        done = []
+
+        def sender():
+            for f in frames:
+                d.sendData(f)
+            done.append(1)
+
+        def loop():
+            # the loop keeps polling for as long as the connection lives
+            for _ in range(case.get("rounds", 40)):
+                if d.out_buffer:
+                    d.handle_write()
+                else:
+                    sk.yield_point(("idle",))
+        sk.spawn("sender", sender)
+        sk.spawn("loop", loop)
+        state = sk.run()
+        if state != "done" or sk.overrun:
+            out.fail("dispatcher", "dispatcher:race:does_not_finish", {"state": state})
+            return out
+        for t in sk.tasks:
+            if t.exc is not None:
+                out.fail("dispatcher", "dispatcher:race:%s_raises:%s" % (t.name, type(t.exc).__name__), {"error": repr(t.exc)[:200]})
+                return out
+        sock.caps = [1 << 30]
+        for _ in range(64):
+            if not d.out_buffer:
+                break
+            d.handle_write()
+        expected = b"".join(frames)
+        out.label("dispatcher_race", "switches>2" if sk.switches > 2 else "switches<=2")
+        out.info = {"nt": sk.switches > 2}
+        held = [repr(l) for l in S.held_locks()]
+        if held:
+            out.fail("dispatcher", "dispatcher:race:lock_still_held", {"locks": held[:3]})
+            return out
+        if bytes(sock.wire) != expected:
+            what = "lost" if len(sock.wire) < len(expected) else "duplicated" if len(sock.wire) > len(expected) else "reordered"
+            out.fail("dispatcher", "dispatcher:race:bytes_%s" % what, {"handed_over": len(expected), "on_the_socket": len(sock.wire)})
+        return out
+    finally:
+        sk.kill()
+        S.SCHED = None
+        S.ALL_LOCKS[:] = []
+
+
 def run_case(case):
+    if case.get("sub") == "dispatcher_race":
+        return _dispatcher_race(case, Outcome())
+    if case.get("sub") == "dispatcher_writes":
+        return _dispatcher_writes(case, Outcome())
     out = Outcome()
     variant = case["variant"]
     ping = bool(case.get("ping")) and variant == "proto"
@@ -223,6 +407,15 @@ def nontrivial(case, out):
 
 
 def shrink_candidates(case):
+    if case.get("sub") == "dispatcher_race":
+        for i in range(len(case["sizes"])):
+            if len(case["sizes"]) > 1:
+                yield dict(case, sizes=case["sizes"][:i] + case["sizes"][i + 1:])
+        return
+    if case.get("sub") == "dispatcher_writes":
+        for i in range(len(case["ops"])):
+            yield dict(case, ops=case["ops"][:i] + case["ops"][i + 1:])
+        return
     ch = case.get("choices", [])
     if ch:
         yield dict(case, choices=ch[:len(ch) // 2])
@@ -312,15 +505,50 @@ def first_send_strategy():
     return build()
 
 
+def dispatcher_writes_strategy():
+    op = st.one_of(st.tuples(st.just("send"), st.sampled_from([1, 3, 20, 300, 5000, 70000])).map(list), st.just(["loop"]))
+    caps = st.lists(st.sampled_from([0, 1, 2, 3, 7, 100, 4096, 65536, 1 << 30]), min_size=1, max_size=6)
+    return st.builds(lambda d, ops, c: {"sub": "dispatcher_writes", "dispatcher": d, "ops": ops, "caps": c, "tasks": []},
+                     st.sampled_from(["socket", "asyncore"]), st.lists(op, min_size=1, max_size=10), caps)
+
+
+def _enum_dispatcher_writes():
+    for d in ("socket", "asyncore"):
+        for caps in ([1 << 30], [2], [3, 0, 100], [4096], [65536, 1]):
+            yield {"sub": "dispatcher_writes", "dispatcher": d, "caps": caps, "tasks": [],
+                   "ops": [["send", 3], ["send", 300], ["loop"], ["send", 3], ["send", 70000], ["send", 3], ["send", 20], ["loop"], ["loop"], ["send", 5000]]}
+
+
+def _enum_dispatcher_race():
+    """one preemption at every line of the asynchronous dispatcher's write path (sender thread x event-loop thread) for sockets
+    that take 1 / 100 / at most 64 KiB per call or sometimes nothing"""
+    for caps in ([100], [1], [65536, 1], [3, 0, 100]):
+        for k in range(0, 130):
+            for sel in (0, 1):
+                yield {"sub": "dispatcher_race", "caps": caps, "sizes": [3, 300, 3, 70000, 5], "preempt": [[k, sel]], "choices": [], "tasks": []}
+
+
+def dispatcher_race_strategy():
+    return st.builds(lambda caps, sizes, pre, ch: {"sub": "dispatcher_race", "caps": caps, "sizes": sizes, "tasks": [],
+                                                   "preempt": pre if not ch else None, "choices": ch},
+                     st.lists(st.sampled_from([0, 1, 3, 100, 4096, 65536]), min_size=1, max_size=4).filter(lambda c: any(c)),
+                     st.lists(st.sampled_from([1, 3, 20, 300, 5000, 70000]), min_size=1, max_size=6),
+                     st.lists(st.tuples(st.integers(0, 200), st.integers(0, 1)).map(list), min_size=1, max_size=3),
+                     st.one_of(st.just([]), st.lists(st.integers(0, 3), min_size=300, max_size=300)))
+
+
 def plan(tier):
     quick = tier == "quick"
     return {
         "shards": 16,
         "enumerations": [("basic", _enum_basic), ("login_preemption_sweep", _enum_login_preemption_sweep),
-                         ("first_send_line_sweep", _enum_first_send_line_sweep)],
+                         ("first_send_line_sweep", _enum_first_send_line_sweep), ("dispatcher_writes_basic", _enum_dispatcher_writes),
+                         ("dispatcher_race_sweep", _enum_dispatcher_race)],
         "exhaustive": ["login_preemption_sweep", "first_send_line_sweep"],
         "strategies": [("schedules", case_strategy(tier), 150 if quick else 10000),
-                       ("first_send_line_schedules", first_send_strategy(), 60 if quick else 3000)],
+                       ("first_send_line_schedules", first_send_strategy(), 60 if quick else 3000),
+                       ("dispatcher_writes", dispatcher_writes_strategy(), 40 if quick else 2000),
+                       ("dispatcher_race", dispatcher_race_strategy(), 40 if quick else 3000)],
         "shrink": "ddmin",
         "budget_s": 150 if quick else 1800,
     }
